@@ -18,7 +18,7 @@ for p in props:
     c = checks.get(p["id"], {})
     q, t = c.get("quick", {}), c.get("thorough", {})
     tests = c.get("tests", ["TestRapid"])
-    qs = "%s cases" % q.get("checks", "?") + ("".join(" + %s" % x for x in tests if x != "TestRapid"))
+    qs = ("%s × " % q["shards"] if q.get("shards", 1) > 1 else "") + "%s cases" % q.get("checks", "?") + ("".join(" + %s" % x for x in tests if x != "TestRapid"))
     ts = "%s × %s" % (t.get("shards", 1), t.get("checks", "?"))
     fz = ", ".join("%s %ss" % (f["target"], f["seconds"]) for f in c.get("fuzz", [])) or "-"
     rc = "all" if c.get("race") else (",".join(c.get("race_tests", [])) or "-")
